@@ -7,7 +7,8 @@
 (*   k    "B" block tag (add_ws), "I" inline tag, "V" block tag with a     *)
 (*        void name, "W" inline tag with a void name, "L" a top-level      *)
 (*        TagList (root only), "T" text, "H" HTML(), "R" _repr_html_       *)
-(*        object, "M" metadata node;                                       *)
+(*        object, "M" metadata node, "E" the empty string ("" or HTML("")): *)
+(*        a text child that emits nothing;                                 *)
 (*   id   unique within the tree (pre-order number in enumerated trees);   *)
 (*   c    children (tags and lists only);                                  *)
 (*   tail for leaves: layout-like tokens that the leaf's own payload ends  *)
@@ -22,7 +23,7 @@
 EXTENDS Naturals, Sequences, FiniteSets, SequencesExt
 
 TagKinds  == {"B", "I", "V", "W"}
-LeafKinds == {"T", "H", "R", "M"}
+LeafKinds == {"T", "H", "R", "M", "E"}
 
 N(k, id, c) == [k |-> k, id |-> id, c |-> c, tail |-> <<>>]
 
@@ -30,7 +31,7 @@ IsTag(x)  == x.k \in TagKinds
 AddWs(x)  == x.k \in {"B", "V"}
 IsVoid(x) == x.k \in {"V", "W"}
 IsMeta(x) == x.k = "M"
-IsText(x) == x.k \in {"T", "H"}          \* isinstance(child, (str, HTML))
+IsText(x) == x.k \in {"T", "H", "E"}     \* isinstance(child, (str, HTML))
 IsList(x) == x.k = "L"
 
 NonMeta(s) == SelectSeq(s, LAMBDA x : ~IsMeta(x))
@@ -39,7 +40,7 @@ Tok(kind, id) == <<kind, id>>
 IND == Tok("ind", 0)
 EOL == Tok("eol", 0)
 Ind(n) == [i \in 1..n |-> IND]
-LeafToks(x) == <<Tok("leaf", x.id)>> \o x.tail
+LeafToks(x) == IF x.k = "E" THEN <<>> ELSE <<Tok("leaf", x.id)>> \o x.tail
 
 -----------------------------------------------------------------------------
 (* Code-shaped renderer *)
@@ -149,22 +150,22 @@ C05Holds(x, out) == C05i(x, out) /\ C05ii(x, out) /\ C05iii(x, out)
 Line(lv, toks) == [lv |-> lv, toks |-> toks]
 OneLine(x) == Len(NonMeta(x.c)) = 0 \/ (Len(NonMeta(x.c)) = 1 /\ IsText(NonMeta(x.c)[1]))
 
-RECURSIVE Lines(_, _), Sibs(_, _, _, _)
+RECURSIVE Lines(_, _), Sibs(_, _, _, _, _)
 Lines(x, lv) ==
   IF ~AddWs(x) \/ OneLine(x) THEN <<Line(lv, Inline(x))>>
-  ELSE <<Line(lv, <<Tok("open", x.id)>>)>> \o Sibs(NonMeta(x.c), 1, lv + 1, <<>>) \o <<Line(lv, <<Tok("close", x.id)>>)>>
-\* children from i on; run = tokens of the current run of adjacent non-block children
-Sibs(nm, i, lv, run) ==
-  IF i > Len(nm) THEN (IF run = <<>> THEN <<>> ELSE <<Line(lv, run)>>)
+  ELSE <<Line(lv, <<Tok("open", x.id)>>)>> \o Sibs(NonMeta(x.c), 1, lv + 1, <<>>, FALSE) \o <<Line(lv, <<Tok("close", x.id)>>)>>
+\* children from i on; run = tokens of the current run of adjacent non-block children, has = the run has
+\* a member (a run of empty strings has members but no tokens: it still occupies its own - empty - line)
+Sibs(nm, i, lv, run, has) ==
+  IF i > Len(nm) THEN (IF ~has THEN <<>> ELSE <<Line(lv, run)>>)
   ELSE IF IsTag(nm[i]) /\ AddWs(nm[i])
-       THEN (IF run = <<>> THEN <<>> ELSE <<Line(lv, run)>>) \o Lines(nm[i], lv) \o Sibs(nm, i + 1, lv, <<>>)
-       ELSE Sibs(nm, i + 1, lv, run \o Inline(nm[i]))
-\* a run consisting only of empty content still occupies its line only if it has tokens
+       THEN (IF ~has THEN <<>> ELSE <<Line(lv, run)>>) \o Lines(nm[i], lv) \o Sibs(nm, i + 1, lv, <<>>, FALSE)
+       ELSE Sibs(nm, i + 1, lv, run \o Inline(nm[i]), TRUE)
 Flat(lines, eol) ==
   FlattenSeq([i \in 1..Len(lines) |->
      (IF i > 1 /\ eol THEN <<EOL>> ELSE <<>>) \o Ind(lines[i].lv) \o lines[i].toks])
 Layout(x, indent, eol) ==
-  IF IsList(x) THEN Flat(Sibs(NonMeta(x.c), 1, indent, <<>>), eol) ELSE Flat(Lines(x, indent), eol)
+  IF IsList(x) THEN Flat(Sibs(NonMeta(x.c), 1, indent, <<>>, FALSE), eol) ELSE Flat(Lines(x, indent), eol)
 
 C06Holds(x, indent, eol, out) == InScope(x) => out = Layout(x, indent, eol)
 
